@@ -116,8 +116,37 @@ NOTES = {
  'C19-std-with-micromath-uses-micromath-powf': 'with std AND micromath enabled the power function is micromath\'s approximation instead of std\'s',
  'C20-encoder-skips-write-when-link-already-reads-it': 'encoder wrapper skips writing its reading when the LINK already reads that datum (peer holds the same state): its own slot stays empty',
  'C19-libm-powf-whole-exponent-squaring': 'no_std+libm only: powf with a whole-number exponent by repeated squaring (dozens of ulps for large |n|, 0 for subnormal results)',
+ 'C02-product2-multiplies-in-reverse-order': 'Product2 computes `second * first`: only a payload type whose multiplication does not commute (matrix, rotation) shows it; f32 / Quantity results are bit-identical',
+ 'C08-invert-set-inside-debug-assert': 'Invert writes side 1 from inside a `debug_assert!`: the write disappears in any build without debug assertions (every default `--release` build); debug builds behave as before',
+ 'C09-disconnect-clears-own-link-before-partner-borrow': 'disconnect clears its own link before the (fallible) mutable borrow of the partner: a call refused because somebody is reading the partner leaves half a link behind',
+ 'C10-v2s-assert-not-ok-panics-in-unchecked-builds': 'VelocityToState checks its input unit with the assume-NOT-ok assertion: panics on well-formed input exactly in builds WITHOUT dimension checking (default `--release`)',
+ 'C11-restarts-after-a-day-without-samples': 'CommandPID restarts (forgets integral and previous error) when two consecutive samples are more than 24 h apart',
+ 'C13-disconnect-keeps-own-link': 'disconnect clears only the partner\'s back-link: the terminal it was called on keeps pointing at its ex-partner (one-way link; a later connect of that terminal silently unlinks a third party)',
+ 'C15-history-getter-reads-clock-twice': 'GetterFromHistory reads its clock twice per get (once for the lookup, once for the returned stamp): only a clock that advances between two reads within one call shows it',
+ 'C20-actuator-holds-terminal-borrow-during-inner-update': 'actuator wrapper keeps its shared borrow of the terminal alive across `inner.update()`: an inner object that reports back on that terminal from its update panics (already borrowed)',
 }
 HISTORY = {
+ 'C02-product2-multiplies-in-reverse-order': 'MISSED at both tiers: every combinator was instantiated at f32, Quantity and bool, whose operators commute bit for bit, so "in input order" and its mirror image '
+   'were indistinguishable. New world `word` (sim/src/words.rs, one C02 run in sixteen): the six arithmetic combinators over a payload whose +, -, *, / are a free magma hashed into 64 bits - neither commutative nor '
+   'associative - so the result fingerprints the whole expression tree (operator, operand sides, grouping of the n-ary fold); all category pairs x stamp orders enumerated, Sum2 / Product2 also compared with the n-ary '
+   'stream over the same inputs. Caught at quick tier since (`C02|word_operand_order|product2`).',
+ 'C08-invert-set-inside-debug-assert': 'caught by C19/quick (the build compiled without debug assertions diverges from the reference) but MISSED by C08 at both tiers: every property batch ran only in the '
+   'simulator linked against the checked build. Each simulator property now runs its batch a second time through the simulator linked against rrtk exactly as `cargo build --release` ships it (default features, '
+   'no debug assertions, no overflow or dimension checks), under the same oracles. Caught by C08/quick since.',
+ 'C10-v2s-assert-not-ok-panics-in-unchecked-builds': 'caught by C19/quick, MISSED by C10 at both tiers for the same reason as the previous entry; caught by C10/quick since the shipped-configuration pass exists.',
+ 'C09-disconnect-clears-own-link-before-partner-borrow': 'MISSED at both tiers: link operations were only ever issued while nobody held a borrow, so none was ever refused half-way. Two fault operations were added to the '
+   'C09 histories: DB (disconnect while the partner is being read) and CB (connect while some terminal is being read). RefCell refuses the write with a panic - that is not judged - but afterwards the reads of all '
+   'terminals must fit one of the symmetric matchings the call passes through between whole steps (old matching, old minus the links of the involved terminals, completed); then everything touched is unlinked '
+   'from both ends and the history goes on. Caught at quick tier since (`C09|half_link_after_refused_op|disconnect`).',
+ 'C11-restarts-after-a-day-without-samples': 'caught by C11/thorough only: sampling intervals were at most 4 h. 2 % of the steps of every node history are now long silences (a day, a weekend, a month, a year, up to '
+   '3000 days). Caught at quick tier since.',
+ 'C13-disconnect-keeps-own-link': 'caught by C09/quick (whose property it breaks) but MISSED by C13: relay histories never took a coupling apart. 8 % of the C13 rounds now disconnect a random terminal, usually followed '
+   'by a newest command somewhere. Caught by C13/quick as well since.',
+ 'C15-history-getter-reads-clock-twice': 'MISSED at both tiers: scripted clocks only moved between operations, so two reads within one call saw the same instant. A quarter of the adapter reads now run on a clock that '
+   'advances by 7 ns at every read (a free-running counter); the model takes the FIRST reading of the call. Caught at quick tier since (`C15|adapter_get|history_time`).',
+ 'C20-actuator-holds-terminal-borrow-during-inner-update': 'MISSED at both tiers: the inner objects of the wrappers never touched the device system themselves. In a quarter of the C20 runs they now talk back to their '
+   'wrapper\'s own terminal from inside the calls the wrapper makes on them (op FB: write a state from `update()`, or read the terminal from `update()` / `get()` / `impl_set()`), which the original permits because it '
+   'holds no conflicting borrow there. Caught at quick tier since (`C20|panic|device_update`).',
  'C12-maf-trim-adds-window-to-stamp': 'MISSED at both tiers: histories reached 2^62 at most; the end of the axis where `stamp + window` overflows (and the original `stamp - window` does not) was never visited. '
    '2 % of the node runs now lie within seven minutes of i64::MAX (steps up to 1 s; moving-average windows from nanoseconds to hours). Caught at quick tier since.',
  'C20-encoder-skips-write-when-link-already-reads-it': 'MISSED at both tiers: encoder readings and the states fed to the peer were drawn independently, so the link never already read the datum the encoder '
